@@ -322,9 +322,26 @@ def install():
     _orig['run'] = Loop.run
     _orig['schedule'] = Loop.schedule
     _orig['_run_coroutine'] = Loop._run_coroutine
+    if callable(getattr(Interrupt, 'revoke', None)):
+        _orig['revoke'] = Interrupt.revoke
+        Interrupt.revoke = _w_revoke
     Loop.run = _w_run
     Loop.schedule = _w_schedule
     Loop._run_coroutine = _w_run_coroutine
+
+
+#: numbers schedule() and revoke() calls of the whole process in the order in which they happen
+_moments = __import__('itertools').count(1)
+
+
+def _w_revoke(self):
+    """Revoking is final: whatever activation carries this signal *now* is dead, whatever the
+    signal object is used for later on. Remember the moment (exceptions have a __dict__)."""
+    try:
+        self._verif_revoked_at = next(_moments)
+    except Exception:  # noqa: B902
+        pass
+    return _orig['revoke'](self)
 
 
 def _w_run(self):
@@ -394,7 +411,7 @@ def _w_schedule(self, target, signal=None, *, delay=None, at=None):
         # a positive delay that is lost in float rounding is queued by the kernel as a
         # *new* step of the same time: exempt from the FIFO comparison (seq 0)
         degenerate = (delay is not None or at is not None) and due == self.time
-        rec = [0 if degenerate else st.seq, due, target, signal]
+        rec = [0 if degenerate else st.seq, due, target, signal, next(_moments)]
         if degenerate:
             st.session.stats['degenerate_delay'] += 1
         key = (id(target), id(signal))
@@ -499,6 +516,13 @@ def _w_run_coroutine(self, target, signal=None):
         if not dq:
             del st.by_key[(id(target), id(signal))]
         seq, due = rec[0], rec[1]
+        if signal is not None and rec[4] < getattr(signal, '_verif_revoked_at', 0):
+            # (the flag of the signal may have been cleared again since: the activation that
+            # was queued before the revocation stays dead)
+            sess.violation('kernel-revoked-delivered',
+                           'an activation of %s that was revoked after it had been queued '
+                           'has been delivered after all (%s)' % (
+                               sess.label_of(target), type(signal).__name__))
         rec[0] = None
         rec[2] = None
         # drop the signal: once thrown, its traceback references the target's frames, and
